@@ -37,6 +37,18 @@ def run(ctx):
     cc = res.clause('C19.c', 'R-PROV', 'explicit ids grouped by the cassette\'s category extraction, each once, deterministic order', floor=2)
     cd = res.clause('C19.d', 'R-PROV', 'lookup receives this category; explicit ids passed as given', floor=2)
     play = st.lookup('play')
+    if play is None:
+        raise AnalysisError('anchor-lost method=PlaybackStudio.play')
+    # nothing is carried from one category to the next: a local that the per-category loop sets only on some paths (an error holder, a
+    # tuning) and that was initialised before the loop would make a later category inherit an earlier one's outcome
+    from . import common as _cm0
+    carried = [(m_, lp_, nm_) for m_ in st.methods.values() for lp_, nm_ in _cm0.loop_carried(m_.node)]
+    cb.instance('no local of the studio\'s loops is carried from one iteration into the next', st.name, not carried)
+    cb.evaluations += 1
+    for m_, lp_, nm_ in carried[:2]:
+        res.add(Finding('C19', 'C19.b', 'R-CONTAIN', m_.file, m_.qualname, lp_.lineno, 'local `%s` of the loop' % nm_,
+                        '`%s` is initialised before the loop in %s and afterwards only assigned on some paths of an iteration: once set (e.g. by a '
+                        'failing tuner) it keeps its value for every later category, which then reports the earlier category\'s outcome' % (nm_, m_.qualname)))
     pcs = [m for m in st.methods.values() if any(isinstance(n, ast.Call) and isinstance(n.func, ast.Attribute) and n.func.attr == 'create_category_tuning'
                                                  for n in ast.walk(m.node))]
     grps = [m for m in st.methods.values() if m is not play and any(
@@ -227,6 +239,22 @@ def run(ctx):
                             'properties %s' % (norm(c), producer,
                                                'localises its bounds as naive UTC values' if consumer == 'naive' else 'treats bounds as %s' % consumer,
                                                'raises on the S3 cassette' if producer == 'aware' else 'is shifted by the local UTC offset')))
+    # ---- C19.j the lookup helper keeps no state: every lookup-driven run asks the cassette again
+    from . import recmodel as _rm
+    lk_ = None
+    for m__ in repo.modules.values():
+        if 'find_matching_recording_ids' in m__.functions:
+            lk_ = m__.functions['find_matching_recording_ids']
+    if lk_ is None:
+        raise AnalysisError('anchor-lost function=find_matching_recording_ids')
+    cj = res.clause('C19.j', 'R-PROV', 'the lookup helper is stateless (no memo of the one-shot id iterator)', floor=1)
+    badl = _rm.stateful_constructs(lk_)
+    cj.instance('%s keeps no state across calls' % lk_.qualname, lk_.qualname, not badl)
+    cj.evaluations += 1
+    for n_, what in badl[:1]:
+        res.add(Finding('C19', 'C19.j', 'R-PROV', lk_.file, lk_.qualname, getattr(n_, 'lineno', lk_.node.lineno), what,
+                        'the lookup helper keeps state between calls (%s): a later run with the same arguments gets the iterator an earlier run '
+                        'already consumed - it replays the left-overs or nothing, and never sees recordings saved in between' % what))
     # ---- C19.h lookup-driven selection: the per-category lookups are lazy and consumed interleaved, so a cassette lookup keeps no state
     from . import common as _cm
     ch = res.clause('C19.h', 'R-PROV', 'cassette lookups keep no state on the cassette (categories are consumed lazily, possibly interleaved)', floor=3)
